@@ -53,10 +53,11 @@ Qed.
 
 Lemma SI2_step a o : SI2 (ss a) -> SI2 (ss (fst (sp_step a o))).
 Proof.
-  intros HS. destruct o as [t p|k| | | |]; cbn [sp_step].
+  intros HS. destruct o as [t p|k| | | | |]; cbn [sp_step].
   - pose proof (SI2_add (ss a) t p HS) as H. destruct (sp_add (ss a) t p) as [[s' h] x]. exact H.
   - destruct (pick_handle (shandles a) k) as [[t i]|]; [apply SI2_cancel|]; exact HS.
   - pose proof (SI2_fetch (ss a) HS) as H. destruct (sp_fetch (ss a)) as [s' x]. exact H.
+  - exact HS.
   - exact HS.
   - exact HS.
   - exact HS.
@@ -131,7 +132,7 @@ Proof.
   { intros H1 H2. pose proof (in_zero_rest _ _ HS H2) as F. rewrite (in_zero_true _ _ H1) in F. discriminate. }
   assert (Hfresh : forall t p, e <> {| etime := t; eid := s_next (ss a); epay := p |}).
   { intros t p ->. specialize (Hi _ Hin). cbn in Hi. lia. }
-  destruct o as [t p|k| | | |]; cbn [sp_step] in *; try tauto.
+  destruct o as [t p|k| | | | |]; cbn [sp_step] in *; try tauto.
   - unfold sp_add in *. destruct (t <? s_tcur (ss a)); [tauto|].
     destruct (t =? s_tcur (ss a)); cbn [fst ss s_zero s_rest spend] in *; unfold spend in *; cbn [s_zero s_rest] in *.
     + rewrite in_app_iff. cbn [In]. specialize (Hfresh t p). split; [tauto|]. intros [H|[H|[]]]; [exact H|congruence].
